@@ -1,5 +1,1340 @@
 (* C19/Proofs.v — lemmas behind C19/Properties.v *)
 From Relic Require Import Base.Prelude Base.Enc Generated.C19_gen C19.Model.
+From Coq Require Import Permutation Sorted.
+
+(* ================================================================== induction on trees *)
+Section NodeInd.
+  Variable P : node -> Prop.
+  Hypothesis HE : forall s t a ch, Forall P ch -> P (Elem s t a ch).
+  Hypothesis HC : forall d, P (CharData d).
+  Hypothesis HM : forall d, P (Comment d).
+  Hypothesis HP : forall t i, P (ProcInst t i).
+  Hypothesis HD : forall d, P (Directive d).
+  Fixpoint node_ind' (n : node) : P n :=
+    match n with
+    | Elem s t a ch => HE s t a ch ((fix go (l : list node) : Forall P l :=
+                                      match l with [] => Forall_nil P | c :: r => Forall_cons c (node_ind' c) (go r) end) ch)
+    | CharData d => HC d
+    | Comment d => HM d
+    | ProcInst t i => HP t i
+    | Directive d => HD d
+    end.
+End NodeInd.
+
+(* ================================================================== part 1 = part 2 *)
+Definition pushes (D : list (bytes * bytes)) (n : node) : node := fold_left push_decl D n.
+
+Lemma pushes_app D1 D2 n : pushes (D1 ++ D2) n = pushes D2 (pushes D1 n).
+Proof. unfold pushes. apply fold_left_app. Qed.
+Lemma push_decl_nonelem n d : kind_of n <> 0 -> push_decl n d = n.
+Proof. destruct n; cbn; intros H; try reflexivity. contradiction. Qed.
+Lemma pushes_nonelem D n : kind_of n <> 0 -> pushes D n = n.
+Proof.
+  intros H. unfold pushes. induction D as [|d D IH]; [reflexivity|]. cbn [fold_left].
+  rewrite push_decl_nonelem by assumption. exact IH.
+Qed.
+Lemma push_decl_kind n d : kind_of (push_decl n d) = kind_of n.
+Proof.
+  destruct n; try reflexivity. unfold push_decl. cbn [push_down].
+  destruct (pd_redeclared _ _); [reflexivity|]. destruct (pd_declare_here _); reflexivity.
+Qed.
+Lemma pushes_kind D n : kind_of (pushes D n) = kind_of n.
+Proof.
+  unfold pushes. revert n. induction D as [|d D IH]; intros n; [reflexivity|]. cbn [fold_left].
+  rewrite IH. apply push_decl_kind.
+Qed.
+
+Lemma pushes_elem_gen s t D : forall a P0 ch,
+  fold_left push_decl D (Elem s t a (map (pushes P0) ch)) =
+  let '(a1, P1) := fold_left (place_one s) D (a, P0) in Elem s t a1 (map (pushes P1) ch).
+Proof.
+  induction D as [|d D IH]; intros a P0 ch; [reflexivity|].
+  cbn [fold_left]. unfold push_decl at 2. cbn [push_down]. unfold place_one at 2.
+  destruct (pd_redeclared true (select_attr (put_decl (fst d)) a)); [apply IH|].
+  destruct (pd_declare_here (uses_space s a (fst d))); [apply IH|].
+  destruct pd_recurses; [|apply IH].
+  rewrite map_map.
+  rewrite (map_ext (fun x => push_down true (fst d) (put_decl (fst d)) (snd d) (pushes P0 x)) (pushes (P0 ++ [d]))).
+  - apply IH.
+  - intros x. rewrite pushes_app. reflexivity.
+Qed.
+Lemma pushes_elem s t a ch D :
+  pushes D (Elem s t a ch) = let '(a1, P1) := place_all s a D in Elem s t a1 (map (pushes P1) ch).
+Proof.
+  unfold place_all. rewrite <- pushes_elem_gen. unfold pushes at 1. f_equal. f_equal.
+  rewrite <- (map_id ch) at 1. apply map_ext. reflexivity.
+Qed.
+
+Lemma own_loop_acc s : forall rest done P0,
+  own_loop s done rest P0 = let '(a2, dn) := own_loop s done rest [] in (a2, P0 ++ dn).
+Proof.
+  induction rest as [|a rest IH]; intros done P0.
+  - cbn. now rewrite app_nil_r.
+  - cbn [own_loop]. destruct (get_decl (a3_space a) (a3_key a)) as [space isd].
+    destruct (walk_push_cond isd _).
+    + destruct walk_pushes_from_self.
+      * destruct (pd_redeclared false _); [destruct walk_removes_pushed; apply IH|].
+        destruct (pd_declare_here _); [destruct walk_removes_pushed; apply IH|].
+        destruct pd_recurses; [|destruct walk_removes_pushed; apply IH].
+        destruct walk_removes_pushed.
+        -- rewrite (IH done (P0 ++ [(space, a3_val a)])), (IH done ([] ++ [(space, a3_val a)])).
+           destruct (own_loop s done rest []) as [a2 dn]. now rewrite <- app_assoc.
+        -- rewrite (IH (a :: done) (P0 ++ [(space, a3_val a)])), (IH (a :: done) ([] ++ [(space, a3_val a)])).
+           destruct (own_loop s (a :: done) rest []) as [a2 dn]. now rewrite <- app_assoc.
+      * destruct walk_removes_pushed; apply IH.
+    + apply IH.
+Qed.
+
+Lemma walk_attrs_own s t : forall rest done P0 ch0,
+  walk_attrs s t done rest (map (pushes P0) ch0) =
+  let '(a2, dn) := own_loop s done rest P0 in (a2, map (pushes dn) ch0).
+Proof.
+  induction rest as [|a rest IH]; intros done P0 ch0; [reflexivity|].
+  cbn [walk_attrs own_loop]. destruct (get_decl (a3_space a) (a3_key a)) as [space isd].
+  destruct (walk_push_cond isd _); [|apply IH].
+  destruct walk_pushes_from_self.
+  - cbn [push_down].
+    destruct (pd_redeclared false _); [destruct walk_removes_pushed; apply IH|].
+    destruct (pd_declare_here _); [destruct walk_removes_pushed; apply IH|].
+    destruct pd_recurses; [|destruct walk_removes_pushed; apply IH].
+    rewrite map_map.
+    rewrite (map_ext (fun x => push_down true space (put_decl space) (a3_val a) (pushes P0 x)) (pushes (P0 ++ [(space, a3_val a)]))).
+    + destruct walk_removes_pushed; apply IH.
+    + intros x. rewrite pushes_app. reflexivity.
+  - destruct walk_removes_pushed; apply IH.
+Qed.
+
+Lemma height_pos n : (1 <= height n)%nat.
+Proof. destruct n; cbn; lia. Qed.
+Lemma height_child s t a ch c : In c ch -> (S (height c) <= height (Elem s t a ch))%nat.
+Proof.
+  cbn [height]. induction ch as [|x r IH]; intros H; [contradiction|].
+  cbn [fold_right]. destruct H as [->|H]; [lia|]. specialize (IH H). lia.
+Qed.
+
+Lemma walk_is_walkD : child_walked 0 = true -> forall n D fuel, (height n <= fuel)%nat -> walk fuel (pushes D n) = walkD D n.
+Proof.
+  intros HW. induction n as [s t a ch IH| | | |] using node_ind'; intros D fuel Hf;
+    try (rewrite pushes_nonelem by (cbn; discriminate); destruct fuel; reflexivity).
+  destruct fuel as [|f]; [pose proof (height_pos (Elem s t a ch)); lia|].
+  rewrite pushes_elem. cbn [walkD]. destruct (place_all s a D) as [a1 pass].
+  cbn [walk]. rewrite (walk_attrs_own s t a1 [] pass ch).
+  rewrite (own_loop_acc s a1 [] pass). destruct (own_loop s [] a1 []) as [a2 dn].
+  f_equal.
+  assert (Hc : forall c, In c ch -> (height c <= f)%nat).
+  { intros c Hc. pose proof (height_child s t a ch c Hc). lia. }
+  clear Hf. induction ch as [|c r IHr]; [reflexivity|].
+  cbn [map walk_children flat_map]. inversion IH as [|? ? Hc1 Hr]; subst.
+  rewrite pushes_kind.
+  destruct (child_kept (kind_of c)).
+  - cbn [app]. f_equal.
+    + destruct (child_walked (kind_of c)) eqn:Ew.
+      * apply Hc1. apply Hc. now left.
+      * apply pushes_nonelem. intros E0. rewrite E0, HW in Ew. discriminate.
+    + apply IHr; [assumption|]. intros x Hx. apply Hc. now right.
+  - cbn [app]. apply IHr; [assumption|]. intros x Hx. apply Hc. now right.
+Qed.
+
+Theorem relic_is_top_down ctx n : relic_c14n ctx n = relic_c14n_td ctx n.
+Proof.
+  unfold relic_c14n, relic_c14n_td, relic_tree, pull_down.
+  change (list_eqb Z.eqb ser_call_order [0; 1; 2; 3]) with true. cbn iota.
+  change pull_pushes_with_nil_top with true. cbn iota.
+  f_equal. apply (walk_is_walkD eq_refl). lia.
+Qed.
+
+(* ================================================================== byte strings: equality and order *)
+Lemma beq_iff a b : bytes_eqb a b = true <-> a = b.
+Proof. apply list_eqb_Z_eq. Qed.
+Lemma beq_refl a : bytes_eqb a a = true.
+Proof. now apply beq_iff. Qed.
+Lemma beq_false a b : bytes_eqb a b = false <-> a <> b.
+Proof.
+  split; intros H.
+  - intros E. apply beq_iff in E. congruence.
+  - destruct (bytes_eqb a b) eqn:E; [|reflexivity]. apply beq_iff in E. contradiction.
+Qed.
+Lemma beq_sym a b : bytes_eqb a b = bytes_eqb b a.
+Proof.
+  destruct (bytes_eqb a b) eqn:E.
+  - apply beq_iff in E. subst. symmetry. apply beq_refl.
+  - symmetry. apply beq_false. apply beq_false in E. congruence.
+Qed.
+Lemma beqP a b : reflect (a = b) (bytes_eqb a b).
+Proof. destruct (bytes_eqb a b) eqn:E; constructor; [now apply beq_iff | now apply beq_false]. Qed.
+Lemma bytes_dec (a b : bytes) : {a = b} + {a <> b}.
+Proof. destruct (beqP a b); [now left | now right]. Qed.
+
+Lemma str_ltb_irrefl a : str_ltb a a = false.
+Proof. induction a as [|x a IH]; [reflexivity|]. cbn. rewrite IH. lia. Qed.
+Lemma str_ltb_trans a : forall b c, str_ltb a b = true -> str_ltb b c = true -> str_ltb a c = true.
+Proof.
+  induction a as [|x a IH]; intros [|y b] [|z c] H1 H2; cbn in *; try discriminate; try reflexivity.
+  apply orb_true_iff in H1. apply orb_true_iff in H2. apply orb_true_iff.
+  destruct H1 as [H1|H1], H2 as [H2|H2].
+  - left. lia.
+  - apply andb_true_iff in H2 as [E _]. left. lia.
+  - apply andb_true_iff in H1 as [E _]. left. lia.
+  - apply andb_true_iff in H1 as [E1 L1]. apply andb_true_iff in H2 as [E2 L2]. right.
+    apply andb_true_iff. split; [lia|]. eapply IH; eassumption.
+Qed.
+Lemma str_ltb_total a : forall b, a <> b -> str_ltb a b = true \/ str_ltb b a = true.
+Proof.
+  induction a as [|x a IH]; intros [|y b] H; cbn; try tauto.
+  destruct (Z.lt_trichotomy x y) as [L|[E|L]].
+  - left. apply orb_true_iff. left. lia.
+  - subst y. assert (Hab : a <> b) by congruence. destruct (IH b Hab) as [G|G]; [left|right];
+      apply orb_true_iff; right; apply andb_true_iff; split; try lia; assumption.
+  - right. apply orb_true_iff. left. lia.
+Qed.
+Lemma str_ltb_asym a b : str_ltb a b = true -> str_ltb b a = false.
+Proof.
+  intros H. destruct (str_ltb b a) eqn:E; [|reflexivity].
+  pose proof (str_ltb_trans _ _ _ H E) as T. rewrite str_ltb_irrefl in T. discriminate.
+Qed.
+
+(* ================================================================== insertion sort *)
+Section Sort.
+  Context {A : Type}.
+  Lemma isort_cons (lt : A -> A -> bool) x l : isort lt (x :: l) = insert lt x (isort lt l).
+  Proof. reflexivity. Qed.
+  Lemma insert_perm (lt : A -> A -> bool) x l : Permutation (insert lt x l) (x :: l).
+  Proof.
+    induction l as [|y r IH]; cbn; [reflexivity|]. destruct (lt x y); [reflexivity|].
+    rewrite IH. apply perm_swap.
+  Qed.
+  Lemma isort_perm_self (lt : A -> A -> bool) l : Permutation (isort lt l) l.
+  Proof.
+    induction l as [|x l IH]; [reflexivity|]. rewrite isort_cons, insert_perm. now constructor.
+  Qed.
+  Lemma isort_in (lt : A -> A -> bool) l x : In x (isort lt l) <-> In x l.
+  Proof. split; apply Permutation_in; [apply isort_perm_self | symmetry; apply isort_perm_self]. Qed.
+
+  (* the result depends on the comparator only through the pairs of members *)
+  Lemma insert_ext (lt1 lt2 : A -> A -> bool) x l :
+    (forall y, In y l -> lt1 x y = lt2 x y) -> insert lt1 x l = insert lt2 x l.
+  Proof.
+    induction l as [|y r IH]; intros H; cbn; [reflexivity|].
+    rewrite (H y (or_introl eq_refl)). destruct (lt2 x y); [reflexivity|]. f_equal. apply IH.
+    intros z Hz. apply H. now right.
+  Qed.
+  Lemma isort_ext (lt1 lt2 : A -> A -> bool) l :
+    (forall x y, In x l -> In y l -> lt1 x y = lt2 x y) -> isort lt1 l = isort lt2 l.
+  Proof.
+    induction l as [|x l IH]; intros H; [reflexivity|]. rewrite !isort_cons.
+    rewrite IH by (intros; apply H; now right).
+    apply insert_ext. intros y Hy. apply H; [now left|]. right. exact (proj1 (isort_in lt2 l y) Hy).
+  Qed.
+  (* same, when only distinct positions are compared *)
+  Lemma isort_ext_nodup (lt1 lt2 : A -> A -> bool) l :
+    NoDup l -> (forall x y, In x l -> In y l -> x <> y -> lt1 x y = lt2 x y) -> isort lt1 l = isort lt2 l.
+  Proof.
+    induction l as [|x l IH]; intros ND H; [reflexivity|]. rewrite !isort_cons. inversion ND; subst.
+    rewrite IH by (try assumption; intros; apply H; try (now right); assumption).
+    apply insert_ext. intros y Hy. apply (proj1 (isort_in lt2 l y)) in Hy. apply H; [now left | now right |]. intros ->. contradiction.
+  Qed.
+
+  (* two classes, every member of the first below every member of the second *)
+  Lemma insert_lo (lt : A -> A -> bool) x l1 l2 :
+    (forall y, In y l2 -> lt x y = true) -> insert lt x (l1 ++ l2) = insert lt x l1 ++ l2.
+  Proof.
+    intros H. induction l1 as [|y r IH]; cbn.
+    - destruct l2 as [|z l2]; [reflexivity|]. cbn. now rewrite (H z (or_introl eq_refl)).
+    - destruct (lt x y); [reflexivity|]. now rewrite IH.
+  Qed.
+  Lemma insert_hi (lt : A -> A -> bool) x l1 l2 :
+    (forall y, In y l1 -> lt x y = false) -> insert lt x (l1 ++ l2) = l1 ++ insert lt x l2.
+  Proof.
+    intros H. induction l1 as [|y r IH]; cbn; [reflexivity|].
+    rewrite (H y (or_introl eq_refl)). f_equal. apply IH. intros z Hz. apply H. now right.
+  Qed.
+  Lemma isort_partition (lt : A -> A -> bool) (lo : A -> bool) l :
+    (forall x y, In x l -> In y l -> lo x = true -> lo y = false -> lt x y = true /\ lt y x = false) ->
+    isort lt l = isort lt (filter lo l) ++ isort lt (filter (fun x => negb (lo x)) l).
+  Proof.
+    induction l as [|x l IH]; intros H; [reflexivity|]. cbn [filter]. rewrite isort_cons.
+    rewrite IH by (intros; apply H; try (now right); assumption).
+    destruct (lo x) eqn:E; cbn [negb]; rewrite isort_cons.
+    - apply insert_lo. intros y Hy. apply (proj1 (isort_in _ _ _)), filter_In in Hy as [Hy Ly].
+      apply (H x y); [now left | now right | assumption |]. now destruct (lo y).
+    - apply insert_hi. intros y Hy. apply (proj1 (isort_in _ _ _)), filter_In in Hy as [Hy Ly].
+      apply (H y x); [now right | now left | assumption | assumption].
+  Qed.
+
+  Lemma insert_map {B} (lt : A -> A -> bool) (lt' : B -> B -> bool) (f : B -> A) x r :
+    (forall x y, lt (f x) (f y) = lt' x y) -> insert lt (f x) (map f r) = map f (insert lt' x r).
+  Proof.
+    intros H. induction r as [|y r IHr]; [reflexivity|]. cbn [map insert].
+    rewrite H. destruct (lt' x y); [reflexivity|]. cbn [map]. now rewrite IHr.
+  Qed.
+  Lemma isort_map {B} (lt : A -> A -> bool) (lt' : B -> B -> bool) (f : B -> A) l :
+    (forall x y, lt (f x) (f y) = lt' x y) -> isort lt (map f l) = map f (isort lt' l).
+  Proof.
+    intros H. induction l as [|x l IH]; [reflexivity|]. cbn [map]. rewrite !isort_cons.
+    rewrite IH. now apply insert_map.
+  Qed.
+
+  (* a strict total order on the members makes the sorted list unique *)
+  Variable lt : A -> A -> bool.
+  Definition ltP (x y : A) : Prop := lt x y = true.
+  Lemma insert_sorted (S : A -> Prop) x l :
+    (forall a b c, S a -> S b -> S c -> lt a b = true -> lt b c = true -> lt a c = true) ->
+    (forall a b, S a -> S b -> a <> b -> lt a b = true \/ lt b a = true) ->
+    S x -> Forall S l -> ~ In x l -> StronglySorted ltP l -> StronglySorted ltP (insert lt x l).
+  Proof.
+    intros Tr To Sx Sl Nin Hs. induction l as [|y r IH]; cbn.
+    - constructor; [constructor|constructor].
+    - inversion Hs as [|? ? Hr Hy]; subst. inversion Sl as [|? ? Sy Sr]; subst.
+      destruct (lt x y) eqn:E.
+      + constructor; [assumption|]. constructor; [exact E|].
+        rewrite Forall_forall in Hy, Sr |- *. intros z Hz. unfold ltP. eapply (Tr x y z); auto. apply Hy. exact Hz.
+      + assert (Lyx : lt y x = true).
+        { destruct (To x y Sx Sy) as [G|G]; [intros ->; apply Nin; now left | congruence | exact G]. }
+        constructor.
+        * apply IH; [assumption | intros G; apply Nin; now right | assumption].
+        * rewrite Forall_forall in Hy |- *. intros z Hz.
+          apply (Permutation_in _ (insert_perm lt x r)) in Hz. destruct Hz as [<-|Hz]; [exact Lyx | now apply Hy].
+  Qed.
+  Lemma isort_sorted (S : A -> Prop) l :
+    (forall a b c, S a -> S b -> S c -> lt a b = true -> lt b c = true -> lt a c = true) ->
+    (forall a b, S a -> S b -> a <> b -> lt a b = true \/ lt b a = true) ->
+    Forall S l -> NoDup l -> StronglySorted ltP (isort lt l).
+  Proof.
+    intros Tr To Sl ND. induction l as [|x l IH]; [constructor|]. rewrite isort_cons.
+    inversion Sl; subst. inversion ND; subst.
+    apply (insert_sorted S); try assumption.
+    - rewrite Forall_forall in *. intros z Hz. apply (proj1 (isort_in _ _ _)) in Hz. auto.
+    - intros G. apply (proj1 (isort_in _ _ _)) in G. contradiction.
+    - now apply IH.
+  Qed.
+  Lemma sorted_unique (S : A -> Prop) l1 : forall l2,
+    (forall a, S a -> lt a a = false) ->
+    (forall a b c, S a -> S b -> S c -> lt a b = true -> lt b c = true -> lt a c = true) ->
+    Forall S l1 -> Forall S l2 ->
+    StronglySorted ltP l1 -> StronglySorted ltP l2 -> (forall x, In x l1 <-> In x l2) -> l1 = l2.
+  Proof.
+    induction l1 as [|x l1 IH]; intros l2 Ir Tr S1 S2 H1 H2 Hm.
+    - destruct l2 as [|y l2]; [reflexivity|]. exfalso. apply (Hm y). now left.
+    - destruct l2 as [|y l2]; [exfalso; apply (Hm x); now left|].
+      inversion H1 as [|? ? Hs1 Hx]; subst. inversion H2 as [|? ? Hs2 Hy]; subst.
+      inversion S1 as [|? ? Sx S1']; subst. inversion S2 as [|? ? Sy S2']; subst.
+      rewrite Forall_forall in Hx, Hy.
+      assert (E : x = y).
+      { destruct (proj1 (Hm x) (or_introl eq_refl)) as [G|G]; [now symmetry|].
+        destruct (proj2 (Hm y) (or_introl eq_refl)) as [G'|G']; [assumption|].
+        specialize (Hx _ G'). specialize (Hy _ G). unfold ltP in *.
+        pose proof (Tr x y x Sx Sy Sx Hx Hy) as T. rewrite (Ir x Sx) in T. discriminate. }
+      subst y. f_equal. apply IH; try assumption.
+      intros z. split; intros Hz.
+      + destruct (proj1 (Hm z) (or_intror Hz)) as [G|G]; [|assumption]. subst z.
+        specialize (Hx _ Hz). unfold ltP in Hx. rewrite (Ir x Sx) in Hx. discriminate.
+      + destruct (proj2 (Hm z) (or_intror Hz)) as [G|G]; [|assumption]. subst z.
+        specialize (Hy _ Hz). unfold ltP in Hy. rewrite (Ir x Sx) in Hy. discriminate.
+  Qed.
+  Lemma isort_unique (S : A -> Prop) l1 l2 :
+    (forall a, S a -> lt a a = false) ->
+    (forall a b c, S a -> S b -> S c -> lt a b = true -> lt b c = true -> lt a c = true) ->
+    (forall a b, S a -> S b -> a <> b -> lt a b = true \/ lt b a = true) ->
+    Forall S l1 -> Forall S l2 -> NoDup l1 -> NoDup l2 -> (forall x, In x l1 <-> In x l2) ->
+    isort lt l1 = isort lt l2.
+  Proof.
+    intros Ir Tr To S1 S2 N1 N2 Hm. apply (sorted_unique S); try assumption.
+    - rewrite Forall_forall in *. intros z Hz. apply (proj1 (isort_in _ _ _)) in Hz. auto.
+    - rewrite Forall_forall in *. intros z Hz. apply (proj1 (isort_in _ _ _)) in Hz. auto.
+    - now apply (isort_sorted S).
+    - now apply (isort_sorted S).
+    - intros x. rewrite !isort_in. apply Hm.
+  Qed.
+End Sort.
+
+(* ================================================================== small list facts *)
+Lemma existsb_ext_in {A} (f g : A -> bool) l : (forall x, In x l -> f x = g x) -> existsb f l = existsb g l.
+Proof.
+  induction l as [|x l IH]; intros H; cbn; [reflexivity|].
+  rewrite (H x (or_introl eq_refl)), IH; [reflexivity|]. intros y Hy. apply H. now right.
+Qed.
+Lemma existsb_false_iff {A} (f : A -> bool) l : existsb f l = false <-> forall x, In x l -> f x = false.
+Proof.
+  split.
+  - intros H x Hx. destruct (f x) eqn:E; [|reflexivity].
+    assert (existsb f l = true) by (apply existsb_exists; eauto). congruence.
+  - intros H. destruct (existsb f l) eqn:E; [|reflexivity]. apply existsb_exists in E as (x & Hx & Fx).
+    rewrite (H x Hx) in Fx. discriminate.
+Qed.
+Lemma filter_ext_in' {A} (f g : A -> bool) l : (forall x, In x l -> f x = g x) -> filter f l = filter g l.
+Proof.
+  induction l as [|x l IH]; intros H; cbn; [reflexivity|].
+  rewrite (H x (or_introl eq_refl)), IH; [reflexivity|]. intros y Hy. apply H. now right.
+Qed.
+
+(* ================================================================== environments *)
+Lemma env_get_set e p v q : env_get (env_set e p v) q = if bytes_eqb q p then v else env_get e q.
+Proof. reflexivity. Qed.
+Lemma env_add_notin decls : forall e q, ~ In q (map fst decls) -> env_get (env_add e decls) q = env_get e q.
+Proof.
+  unfold env_add. induction decls as [|d r IH]; intros e q H; [reflexivity|]. cbn [fold_left].
+  rewrite IH by (intros G; apply H; now right). rewrite env_get_set.
+  destruct (beqP q (fst d)) as [->|]; [|reflexivity]. exfalso. apply H. now left.
+Qed.
+Lemma env_add_in decls : forall e q v, NoDup (map fst decls) -> In (q, v) decls -> env_get (env_add e decls) q = v.
+Proof.
+  unfold env_add. induction decls as [|d r IH]; intros e q v ND H; [contradiction|]. cbn [fold_left].
+  cbn [map] in ND. inversion ND as [|? ? Nin ND']; subst. destruct H as [->|H].
+  - cbn [fst snd]. fold (env_add (env_set e q v) r). rewrite env_add_notin by assumption.
+    rewrite env_get_set, beq_refl. reflexivity.
+  - now apply IH.
+Qed.
+
+Definition render (g : bytes -> bytes) (out : list bytes) (r : env) : env :=
+  fold_left (fun r p => env_set r p (g p)) out r.
+Lemma render_notin g out : forall r q, ~ In q out -> env_get (render g out r) q = env_get r q.
+Proof.
+  unfold render. induction out as [|p out IH]; intros r q H; [reflexivity|]. cbn [fold_left].
+  rewrite IH by (intros G; apply H; now right). rewrite env_get_set.
+  destruct (beqP q p) as [->|]; [|reflexivity]. exfalso. apply H. now left.
+Qed.
+Lemma render_in g out : forall r q, In q out -> env_get (render g out r) q = g q.
+Proof.
+  unfold render. induction out as [|p out IH]; intros r q H; [contradiction|]. cbn [fold_left].
+  destruct (in_dec bytes_dec q out) as [I|N].
+  - now apply IH.
+  - fold (render g out (env_set r p (g p))). rewrite render_notin by assumption. rewrite env_get_set.
+    destruct H as [->|H]; [|contradiction]. now rewrite beq_refl.
+Qed.
+
+(* nodup_b *)
+Lemma nodup_b_NoDup l : nodup_b l = true -> NoDup l.
+Proof.
+  induction l as [|[a b] l IH]; intros H; [constructor|]. cbn [nodup_b] in H.
+  apply andb_true_iff in H as [H1 H2]. constructor; [|now apply IH].
+  intros G. apply negb_true_iff in H1. rewrite existsb_false_iff in H1. specialize (H1 _ G). cbn in H1.
+  rewrite !beq_refl in H1. discriminate.
+Qed.
+
+(* ================================================================== the generated functions, characterised *)
+Definition decl_attr (d : bytes * bytes) : attr :=
+  match fst d with [] => mkattr [] s_xmlns (snd d) | p => mkattr s_xmlns p (snd d) end.
+Definition has_decl (p : bytes) (attrs : list attr) : bool :=
+  existsb (fun a => is_nsdecl a && bytes_eqb p (decl_prefix a)) attrs.
+(* does the element (name prefix s) visibly utilise prefix p?  only real attributes count *)
+Definition usesP (s : bytes) (attrs : list attr) (p : bytes) : bool :=
+  bytes_eqb s p || (negb (bytes_eqb p []) && existsb (fun a => bytes_eqb (a3_space a) p) (plain_attrs attrs)).
+
+Lemma get_decl_spec a :
+  get_decl (a3_space a) (a3_key a) = ((if is_nsdecl a then decl_prefix a else []), is_nsdecl a).
+Proof.
+  destruct a as [[sp k] v]. unfold get_decl, is_nsdecl, decl_prefix, a3_space, a3_key. cbn [fst snd].
+  destruct sp as [|z r].
+  - cbn [bytes_eqb list_eqb andb]. fold s_xmlns. destruct (bytes_eqb k s_xmlns); reflexivity.
+  - change (bytes_eqb (z :: r) []) with false. cbn [andb]. fold s_xmlns. destruct (bytes_eqb (z :: r) s_xmlns); reflexivity.
+Qed.
+Lemma put_decl_decompose p :
+  space_decompose (put_decl p) = match p with [] => ([], s_xmlns) | _ => (s_xmlns, p) end.
+Proof. destruct p as [|z r]; reflexivity. Qed.
+Lemma decl_attr_names d : (a3_space (decl_attr d), a3_key (decl_attr d)) = space_decompose (put_decl (fst d)).
+Proof. rewrite put_decl_decompose. destruct d as [[|z r] v]; reflexivity. Qed.
+Lemma decl_attr_is_decl d : is_nsdecl (decl_attr d) = true.
+Proof. destruct d as [[|z r] v]; reflexivity. Qed.
+Lemma decl_attr_prefix d : decl_prefix (decl_attr d) = fst d.
+Proof. destruct d as [[|z r] v]; reflexivity. Qed.
+Lemma decl_attr_val d : a3_val (decl_attr d) = snd d.
+Proof. destruct d as [[|z r] v]; reflexivity. Qed.
+
+(* SelectAttr(putDecl(p)) is "has a declaration of p" provided no attribute is called *:xmlns / xmlns: *)
+Lemma select_one p a : name_ok a = true ->
+  (let '(sp, sk) := space_decompose (put_decl p) in space_match sp (a3_space a) && bytes_eqb sk (a3_key a))
+  = (is_nsdecl a && bytes_eqb p (decl_prefix a)).
+Proof.
+  intros N. rewrite put_decl_decompose. destruct a as [[sp k] v]. unfold name_ok, is_nsdecl, decl_prefix, a3_space, a3_key in *.
+  cbn [fst snd] in *. destruct p as [|z r].
+  - cbn [space_match andb]. destruct sp as [|y sp].
+    + rewrite (beq_sym s_xmlns k). destruct (bytes_eqb k s_xmlns); reflexivity.
+    + rewrite (beq_sym s_xmlns k). destruct (bytes_eqb k s_xmlns) eqn:Ek.
+      * cbn in N. discriminate.
+      * destruct (bytes_eqb (y :: sp) s_xmlns) eqn:E; [|reflexivity]. cbn [andb].
+        destruct k as [|k0 k']; [|reflexivity]. cbn in N. discriminate.
+  - destruct sp as [|y sp].
+    + cbn. rewrite andb_false_r. reflexivity.
+    + unfold space_match. fold s_xmlns. rewrite (beq_sym s_xmlns (y :: sp)). reflexivity.
+Qed.
+Lemma select_attr_spec p attrs : names_ok attrs = true -> select_attr (put_decl p) attrs = has_decl p attrs.
+Proof.
+  intros N. unfold select_attr, has_decl. unfold names_ok in N. rewrite forallb_forall in N.
+  pose proof (select_one p) as S1. destruct (space_decompose (put_decl p)) as [sp sk].
+  apply existsb_ext_in. intros a Ha. apply (S1 a). now apply N.
+Qed.
+Lemma name_ok_decl_attr d : fst d <> s_xmlns -> fst d <> s_xml -> name_ok (decl_attr d) = true.
+Proof.
+  destruct d as [[|z r] v]; intros H1 H2; cbn [fst] in *; [reflexivity|].
+  unfold name_ok, decl_attr, a3_space, a3_key, mkattr. cbn [fst snd].
+  rewrite (proj2 (beq_false (z :: r) s_xmlns)) by assumption. rewrite beq_refl.
+  rewrite (proj2 (beq_false (z :: r) s_xml)) by assumption. reflexivity.
+Qed.
+Lemma has_decl_app p l1 l2 : has_decl p (l1 ++ l2) = has_decl p l1 || has_decl p l2.
+Proof. apply existsb_app. Qed.
+Lemma has_decl_decl_attrs p X : has_decl p (map decl_attr X) = existsb (fun d => bytes_eqb p (fst d)) X.
+Proof.
+  unfold has_decl. induction X as [|d X IH]; [reflexivity|]. cbn [map existsb].
+  rewrite decl_attr_is_decl, decl_attr_prefix, IH. reflexivity.
+Qed.
+Lemma has_decl_own p attrs : has_decl p attrs = existsb (fun d => bytes_eqb p (fst d)) (own_decls attrs).
+Proof.
+  unfold has_decl, own_decls. induction attrs as [|a l IH]; [reflexivity|]. cbn [existsb filter].
+  destruct (is_nsdecl a); cbn [map existsb fst andb]; now rewrite IH.
+Qed.
+
+Lemma plain_app l1 l2 : plain_attrs (l1 ++ l2) = plain_attrs l1 ++ plain_attrs l2.
+Proof. apply filter_app. Qed.
+Lemma plain_decl_attrs X : plain_attrs (map decl_attr X) = [].
+Proof. induction X as [|d X IH]; [reflexivity|]. cbn [map]. unfold plain_attrs in *. cbn [filter]. now rewrite decl_attr_is_decl. Qed.
+
+Lemma uses_space_spec s attrs p : p <> s_xmlns -> uses_space s attrs p = usesP s attrs p.
+Proof.
+  intros Hp. unfold uses_space, usesP, uses_elem_cond, uses_default_cond, uses_attr_cond.
+  destruct (bytes_eqb s p); [reflexivity|]. cbn [orb]. destruct (beqP p []) as [->|Hn]; [reflexivity|]. cbn [negb andb].
+  unfold plain_attrs. induction attrs as [|a l IH]; [reflexivity|]. cbn [existsb filter].
+  destruct (beqP (a3_space a) p) as [E|E].
+  - assert (D : is_nsdecl a = false).
+    { unfold is_nsdecl. rewrite E. destruct p as [|z r]; [congruence|]. now apply beq_false. }
+    rewrite D. cbn [negb existsb]. rewrite E, beq_refl. reflexivity.
+  - cbn [orb]. rewrite IH. destruct (negb (is_nsdecl a)); [|reflexivity]. cbn [existsb].
+    rewrite (proj2 (beq_false _ _) E). reflexivity.
+Qed.
+Lemma usesP_plain s l1 l2 p : plain_attrs l1 = plain_attrs l2 -> usesP s l1 p = usesP s l2 p.
+Proof. intros E. unfold usesP. now rewrite E. Qed.
+
+(* utilised prefixes of the specification *)
+Lemma dedup_in l x : In x (dedup l) <-> In x l.
+Proof.
+  induction l as [|y l IH]; [tauto|]. cbn [dedup]. destruct (existsb (bytes_eqb y) l) eqn:E.
+  - rewrite IH. split; [now right|]. intros [<-|H]; [|assumption].
+    apply existsb_exists in E as (z & Hz & Ez). apply beq_iff in Ez. now subst.
+  - cbn [In]. now rewrite IH.
+Qed.
+Lemma dedup_nodup l : NoDup (dedup l).
+Proof.
+  induction l as [|y l IH]; [constructor|]. cbn [dedup]. destruct (existsb (bytes_eqb y) l) eqn:E; [assumption|].
+  constructor; [|assumption]. rewrite dedup_in. intros H. rewrite existsb_false_iff in E. specialize (E _ H).
+  rewrite beq_refl in E. discriminate.
+Qed.
+Lemma utilized_nodup s attrs : NoDup (utilized s attrs).
+Proof. unfold utilized. apply NoDup_filter, dedup_nodup. Qed.
+Lemma utilized_in s attrs p : In p (utilized s attrs) <-> (usesP s attrs p = true /\ p <> s_xml).
+Proof.
+  unfold utilized, usesP. rewrite filter_In, dedup_in. cbn [In]. rewrite negb_true_iff, beq_false.
+  rewrite orb_true_iff, andb_true_iff, negb_true_iff, beq_false, beq_iff, in_map_iff.
+  split; intros [H Hx]; (split; [|assumption]).
+  - destruct H as [H|(a & Ea & Ha)]; [now left|]. right. apply filter_In in Ha as [Ha Hs]. split.
+    + intros ->. rewrite Ea in Hs. discriminate.
+    + apply existsb_exists. exists a. split; [assumption|]. rewrite Ea. apply beq_refl.
+  - destruct H as [H|[Hn H]]; [now left|]. right. apply existsb_exists in H as (a & Ha & Ea). apply beq_iff in Ea.
+    exists a. split; [assumption|]. apply filter_In. split; [assumption|]. rewrite Ea. destruct p; [congruence|reflexivity].
+Qed.
+
+(* ================================================================== closed forms of the two attribute loops *)
+Definition placedP (s : bytes) (attrs : list attr) (d : bytes * bytes) : bool :=
+  negb (has_decl (fst d) attrs) && usesP s attrs (fst d).
+Definition passedP (s : bytes) (attrs : list attr) (d : bytes * bytes) : bool :=
+  negb (has_decl (fst d) attrs) && negb (usesP s attrs (fst d)).
+Definition dropP (s : bytes) (L : list attr) (a : attr) : bool := is_nsdecl a && negb (usesP s L (decl_prefix a)).
+Definition keepP (s : bytes) (L : list attr) (a : attr) : bool := negb (dropP s L a).
+
+Lemma replace_val_none sp sk v l :
+  existsb (fun a => space_match sp (a3_space a) && bytes_eqb sk (a3_key a)) l = false -> replace_val sp sk v l = None.
+Proof.
+  induction l as [|a l IH]; intros H; [reflexivity|]. cbn [existsb] in H. apply orb_false_iff in H as [H1 H2].
+  cbn [replace_val]. rewrite (IH H2).
+  destruct (bytes_eqb sp (a3_space a)) eqn:E; [|reflexivity]. apply beq_iff in E. subst sp.
+  assert (space_match (a3_space a) (a3_space a) = true) as M by (unfold space_match; destruct (a3_space a); [reflexivity | apply beq_refl]).
+  rewrite M in H1. cbn [andb] in H1. now rewrite H1.
+Qed.
+Lemma create_attr_fresh p v l : select_attr (put_decl p) l = false -> create_attr (put_decl p) v l = l ++ [decl_attr (p, v)].
+Proof.
+  unfold select_attr, create_attr. pose proof (decl_attr_names (p, v)) as N. cbn [fst] in N.
+  destruct (space_decompose (put_decl p)) as [sp sk]. intros H. rewrite (replace_val_none _ _ _ _ H).
+  f_equal. f_equal. unfold mkattr. inversion N. rewrite <- (decl_attr_val (p, v)) at 3.
+  destruct (decl_attr (p, v)) as [[x y] z]. reflexivity.
+Qed.
+Lemma names_ok_app l1 l2 : names_ok (l1 ++ l2) = names_ok l1 && names_ok l2.
+Proof. apply forallb_app. Qed.
+Lemma names_ok_decl_attrs X : (forall x, In x X -> fst x <> s_xmlns /\ fst x <> s_xml) -> names_ok (map decl_attr X) = true.
+Proof.
+  intros H. unfold names_ok. apply forallb_forall. intros a Ha. apply in_map_iff in Ha as (d & <- & Hd).
+  destruct (H d Hd). now apply name_ok_decl_attr.
+Qed.
+
+Lemma place_gen s attrs : names_ok attrs = true -> forall D X0 P0,
+  NoDup (map fst D) ->
+  (forall d, In d D -> fst d <> s_xmlns /\ fst d <> s_xml) ->
+  (forall x, In x X0 -> fst x <> s_xmlns /\ fst x <> s_xml /\ ~ In (fst x) (map fst D)) ->
+  fold_left (place_one s) D (attrs ++ map decl_attr X0, P0) =
+  (attrs ++ map decl_attr (X0 ++ filter (placedP s attrs) D), P0 ++ filter (passedP s attrs) D).
+Proof.
+  intros NA. induction D as [|d D IH]; intros X0 P0 ND HD HX.
+  - cbn. now rewrite !app_nil_r.
+  - cbn [fold_left map] in *. inversion ND as [|? ? Nin ND']; subst.
+    destruct (HD d (or_introl eq_refl)) as [Hd1 Hd2].
+    assert (NC : names_ok (attrs ++ map decl_attr X0) = true).
+    { rewrite names_ok_app, NA, names_ok_decl_attrs; [reflexivity|]. intros x Hx. destruct (HX x Hx) as (? & ? & ?). tauto. }
+    assert (HX0 : existsb (fun x => bytes_eqb (fst d) (fst x)) X0 = false).
+    { apply existsb_false_iff. intros x Hx. apply beq_false. destruct (HX x Hx) as (_ & _ & N). intros E. apply N. left. now symmetry. }
+    assert (HXD : forall x, In x X0 -> fst x <> s_xmlns /\ fst x <> s_xml /\ ~ In (fst x) (map fst D)).
+    { intros x Hx. destruct (HX x Hx) as (? & ? & N). repeat split; try assumption. intros G. apply N. now right. }
+    unfold place_one at 2.
+    rewrite (select_attr_spec _ _ NC), has_decl_app, has_decl_decl_attrs, HX0, orb_false_r.
+    rewrite uses_space_spec by assumption.
+    rewrite (usesP_plain s (attrs ++ map decl_attr X0) attrs) by (now rewrite plain_app, plain_decl_attrs, app_nil_r).
+    unfold pd_redeclared, pd_declare_here. cbn [andb filter].
+    destruct (has_decl (fst d) attrs) eqn:Hh.
+    + assert (placedP s attrs d = false) as -> by (unfold placedP; now rewrite Hh).
+      assert (passedP s attrs d = false) as -> by (unfold passedP; now rewrite Hh).
+      apply IH; try assumption. intros; apply HD; now right.
+    + destruct (usesP s attrs (fst d)) eqn:Hu.
+      * assert (placedP s attrs d = true) as -> by (unfold placedP; now rewrite Hh, Hu).
+        assert (passedP s attrs d = false) as -> by (unfold passedP; now rewrite Hh, Hu).
+        change pd_creates_attr with true. cbn iota.
+        rewrite create_attr_fresh.
+        2:{ rewrite (select_attr_spec _ _ NC), has_decl_app, has_decl_decl_attrs, HX0, Hh. reflexivity. }
+        replace (fst d, snd d) with d by (now destruct d).
+        rewrite <- app_assoc. change (map decl_attr X0 ++ [decl_attr d]) with (map decl_attr X0 ++ map decl_attr [d]).
+        rewrite <- map_app. rewrite IH; try assumption.
+        -- rewrite <- app_assoc. reflexivity.
+        -- intros; apply HD; now right.
+        -- intros x Hx. apply in_app_iff in Hx as [Hx|[<-|[]]]; [now apply HXD|]. repeat split; assumption.
+      * assert (placedP s attrs d = false) as -> by (unfold placedP; now rewrite Hh, Hu).
+        assert (passedP s attrs d = true) as -> by (unfold passedP; now rewrite Hh, Hu).
+        change pd_recurses with true. cbn iota. rewrite IH; try assumption.
+        -- rewrite <- app_assoc. reflexivity.
+        -- intros; apply HD; now right.
+Qed.
+Lemma place_all_spec s attrs D :
+  names_ok attrs = true -> NoDup (map fst D) -> (forall d, In d D -> fst d <> s_xmlns /\ fst d <> s_xml) ->
+  place_all s attrs D = (attrs ++ map decl_attr (filter (placedP s attrs) D), filter (passedP s attrs) D).
+Proof.
+  intros NA ND HD. unfold place_all.
+  pose proof (place_gen s attrs NA D [] [] ND HD) as H. cbn [map app] in H. rewrite app_nil_r in H. apply H. intros x [].
+Qed.
+
+Lemma plain_cons_decl a l : is_nsdecl a = true -> plain_attrs (a :: l) = plain_attrs l.
+Proof. intros H. unfold plain_attrs. cbn [filter]. now rewrite H. Qed.
+
+Lemma own_gen s L : (forall a, In a L -> is_nsdecl a = true -> decl_prefix a <> s_xmlns) -> forall rest done dn,
+  plain_attrs (rev done ++ rest) = plain_attrs L -> (forall a, In a rest -> In a L) ->
+  own_loop s done rest dn =
+  (rev done ++ filter (keepP s L) rest, dn ++ map (fun a => (decl_prefix a, a3_val a)) (filter (dropP s L) rest)).
+Proof.
+  intros HL. induction rest as [|a rest IH]; intros done dn HP Hin.
+  - cbn. now rewrite !app_nil_r.
+  - cbn [own_loop filter]. rewrite get_decl_spec.
+    assert (C : walk_push_cond (is_nsdecl a) (uses_space s (rev done ++ a :: rest) (if is_nsdecl a then decl_prefix a else [])) = dropP s L a).
+    { unfold walk_push_cond, dropP. destruct (is_nsdecl a) eqn:D; [|reflexivity]. cbn [andb].
+      rewrite uses_space_spec by (apply HL; [apply Hin; now left | assumption]).
+      now rewrite (usesP_plain s _ L _ HP). }
+    rewrite C. unfold keepP at 1. destruct (dropP s L a) eqn:Dr; cbn [negb].
+    + unfold dropP in Dr. apply andb_true_iff in Dr as [D U]. rewrite D. apply negb_true_iff in U.
+      change walk_pushes_from_self with true. change walk_removes_pushed with true. cbn iota.
+      unfold pd_redeclared. cbn [andb].
+      assert (U' : uses_space s (rev done ++ a :: rest) (decl_prefix a) = false).
+      { rewrite uses_space_spec by (apply HL; [apply Hin; now left | assumption]). now rewrite (usesP_plain s _ L _ HP). }
+      unfold pd_declare_here. rewrite U'. change pd_recurses with true. cbn iota.
+      rewrite IH.
+      * cbn [map]. rewrite <- app_assoc. reflexivity.
+      * rewrite <- HP. rewrite !plain_app. f_equal. now rewrite plain_cons_decl.
+      * intros x Hx. apply Hin. now right.
+    + rewrite IH.
+      * cbn [rev]. rewrite <- app_assoc. reflexivity.
+      * rewrite <- HP. cbn [rev]. rewrite <- app_assoc. reflexivity.
+      * intros x Hx. apply Hin. now right.
+Qed.
+Lemma own_loop_spec s L :
+  (forall a, In a L -> is_nsdecl a = true -> decl_prefix a <> s_xmlns) ->
+  own_loop s [] L [] = (filter (keepP s L) L, map (fun a => (decl_prefix a, a3_val a)) (filter (dropP s L) L)).
+Proof. intros HL. apply (own_gen s L HL L [] []); [reflexivity | auto]. Qed.
+
+(* ================================================================== own declarations of an element *)
+Lemma decl_is_decl_attr a : name_ok a = true -> is_nsdecl a = true -> a = decl_attr (decl_prefix a, a3_val a).
+Proof.
+  destruct a as [[sp k] v]. unfold name_ok, is_nsdecl, decl_prefix, decl_attr, a3_space, a3_key, a3_val, mkattr. cbn [fst snd].
+  intros N D. destruct sp as [|y sp].
+  - apply beq_iff in D. now subst k.
+  - apply beq_iff in D. rewrite D in *. rewrite beq_refl in N. destruct k as [|k0 k'].
+    + cbn in N. rewrite ?orb_true_r, ?andb_false_r in N. cbn in N. discriminate.
+    + reflexivity.
+Qed.
+Lemma decls_are_decl_attrs attrs : names_ok attrs = true -> filter is_nsdecl attrs = map decl_attr (own_decls attrs).
+Proof.
+  unfold names_ok, own_decls. intros N. rewrite forallb_forall in N. rewrite map_map.
+  induction attrs as [|a l IH]; [reflexivity|]. cbn [filter]. destruct (is_nsdecl a) eqn:D.
+  - cbn [map]. f_equal; [apply decl_is_decl_attr; [apply N; now left | assumption]|]. apply IH. intros x Hx. apply N. now right.
+  - apply IH. intros x Hx. apply N. now right.
+Qed.
+Lemma own_prefix_ok attrs d : names_ok attrs = true -> In d (own_decls attrs) -> fst d <> s_xmlns /\ fst d <> s_xml.
+Proof.
+  unfold names_ok, own_decls. intros N H. rewrite forallb_forall in N. apply in_map_iff in H as (a & <- & Ha).
+  apply filter_In in Ha as [Ha D]. specialize (N a Ha). cbn [fst]. destruct a as [[sp k] v].
+  unfold name_ok, is_nsdecl, decl_prefix, a3_space, a3_key in *. cbn [fst snd] in *. destruct sp as [|y sp].
+  - split; discriminate.
+  - apply beq_iff in D. rewrite D in *. rewrite beq_refl in N. apply andb_true_iff in N as [N1 N2].
+    split; intros ->.
+    + rewrite beq_refl in N1. discriminate.
+    + rewrite beq_refl in N2. discriminate.
+Qed.
+Lemma nodup_map_filter {A B} (f : A -> B) (p : A -> bool) l : NoDup (map f l) -> NoDup (map f (filter p l)).
+Proof.
+  induction l as [|x l IH]; intros H; [constructor|]. cbn [map] in H. inversion H as [|? ? Nin ND]; subst.
+  cbn [filter]. destruct (p x); [|now apply IH]. cbn [map]. constructor; [|now apply IH].
+  intros G. apply Nin. apply in_map_iff in G as (y & Ey & Hy). apply filter_In in Hy as [Hy _]. apply in_map_iff. eauto.
+Qed.
+Lemma own_decls_nodup attrs : names_ok attrs = true -> NoDup (attr_names attrs) -> NoDup (map fst (own_decls attrs)).
+Proof.
+  intros N ND. pose proof (nodup_map_filter (fun a : attr => (a3_space a, a3_key a)) is_nsdecl attrs ND) as H.
+  rewrite (decls_are_decl_attrs _ N), map_map in H.
+  rewrite (map_ext _ (fun d => space_decompose (put_decl (fst d)))) in H by (intros d; apply decl_attr_names).
+  rewrite <- (map_map fst (fun p => space_decompose (put_decl p))) in H.
+  apply NoDup_map_inv in H. exact H.
+Qed.
+Lemma nodup_app {A} (l1 l2 : list A) : NoDup l1 -> NoDup l2 -> (forall x, In x l1 -> ~ In x l2) -> NoDup (l1 ++ l2).
+Proof.
+  induction l1 as [|x l1 IH]; intros N1 N2 H; [assumption|]. inversion N1; subst. cbn. constructor.
+  - rewrite in_app_iff. intros [G|G]; [contradiction|]. apply (H x); [now left | assumption].
+  - apply IH; try assumption. intros y Hy. apply H. now right.
+Qed.
+
+(* ================================================================== the comparator on declarations / attributes *)
+Lemma attr_lt_unfold x y :
+  attr_lt x y =
+  if bytes_eqb (a3_space x) [] && bytes_eqb (a3_key x) s_xmlns then true
+  else if bytes_eqb (a3_space y) [] && bytes_eqb (a3_key y) s_xmlns then false
+  else if bytes_eqb (a3_space x) s_xmlns && negb (bytes_eqb (a3_space y) s_xmlns) then true
+  else if bytes_eqb (a3_space y) s_xmlns && negb (bytes_eqb (a3_space x) s_xmlns) then false
+  else if negb (bytes_eqb (a3_space x) (a3_space y)) then str_ltb (a3_space x) (a3_space y)
+  else str_ltb (a3_key x) (a3_key y).
+Proof. reflexivity. Qed.
+Lemma is_nsdecl_cases a :
+  is_nsdecl a = (bytes_eqb (a3_space a) [] && bytes_eqb (a3_key a) s_xmlns) || bytes_eqb (a3_space a) s_xmlns.
+Proof.
+  unfold is_nsdecl. destruct (a3_space a) as [|z r].
+  - cbn. now rewrite orb_false_r.
+  - change (bytes_eqb (z :: r) []) with false. reflexivity.
+Qed.
+Lemma attr_lt_decl_plain x y : is_nsdecl x = true -> is_nsdecl y = false -> attr_lt x y = true /\ attr_lt y x = false.
+Proof.
+  rewrite !is_nsdecl_cases, !attr_lt_unfold. intros Dx Dy.
+  apply orb_false_iff in Dy as [Dy1 Dy2]. rewrite Dy1, Dy2. cbn [negb andb].
+  destruct (bytes_eqb (a3_space x) [] && bytes_eqb (a3_key x) s_xmlns); [split; reflexivity|].
+  cbn [orb] in Dx. rewrite Dx. cbn [andb negb]. split; reflexivity.
+Qed.
+Lemma attr_lt_plain x y : is_nsdecl x = false -> is_nsdecl y = false -> attr_lt x y = plain_lt x y.
+Proof.
+  rewrite !is_nsdecl_cases, attr_lt_unfold. intros Dx Dy.
+  apply orb_false_iff in Dx as [Dx1 Dx2]. apply orb_false_iff in Dy as [Dy1 Dy2].
+  rewrite Dx1, Dx2, Dy1, Dy2. cbn [negb andb]. unfold plain_lt.
+  destruct (bytes_eqb (a3_space x) (a3_space y)); reflexivity.
+Qed.
+Lemma attr_lt_decls p q v w : p <> q -> p <> s_xmlns -> q <> s_xmlns ->
+  attr_lt (decl_attr (p, v)) (decl_attr (q, w)) = str_ltb p q.
+Proof.
+  intros Hpq Hp Hq. rewrite attr_lt_unfold.
+  destruct p as [|p0 p'], q as [|q0 q']; unfold decl_attr, mkattr, a3_space, a3_key; cbn [fst snd].
+  - congruence.
+  - reflexivity.
+  - change (bytes_eqb s_xmlns []) with false. cbn [andb]. rewrite !beq_refl. reflexivity.
+  - change (bytes_eqb s_xmlns []) with false. cbn [andb]. rewrite !beq_refl. cbn [andb negb]. reflexivity.
+Qed.
+
+(* ================================================================== writer = canonical XML output rules *)
+Lemma esc_attr_eq c : esc_byte 2 c = x_esc_attr c.
+Proof.
+  unfold esc_byte, x_esc_attr. change (2 =? 2) with true. change (2 =? 0) with false. change (2 =? 1) with false. cbn iota.
+  destruct (c =? 38) eqn:E1; [reflexivity|]. destruct (c =? 60) eqn:E2; [reflexivity|].
+  destruct (c =? 62) eqn:E3.
+  { assert (c = 62) by lia. subst. reflexivity. }
+  destruct (c =? 39) eqn:E4.
+  { assert (c = 39) by lia. subst. reflexivity. }
+  reflexivity.
+Qed.
+Lemma esc_text_eq c : esc_byte 1 c = x_esc_text c.
+Proof.
+  unfold esc_byte, x_esc_text. change (1 =? 2) with false. change (1 =? 0) with false. change (1 =? 1) with true. cbn iota.
+  destruct (c =? 38) eqn:E1; [reflexivity|]. destruct (c =? 60) eqn:E2; [reflexivity|].
+  destruct (c =? 62) eqn:E3; [reflexivity|].
+  destruct (c =? 39) eqn:E4. { assert (c = 39) by lia. subst. reflexivity. }
+  destruct (c =? 34) eqn:E5. { assert (c = 34) by lia. subst. reflexivity. }
+  destruct (c =? 9) eqn:E6. { assert (c = 9) by lia. subst. reflexivity. }
+  destruct (c =? 10) eqn:E7. { assert (c = 10) by lia. subst. reflexivity. }
+  reflexivity.
+Qed.
+Lemma flat_map_ext' {A B} (f g : A -> list B) l : (forall x, f x = g x) -> flat_map f l = flat_map g l.
+Proof. intros H. induction l as [|x l IH]; cbn; [reflexivity|]. now rewrite H, IH. Qed.
+Lemma write_attr_spec a : write_attr a = x_attr_string (qname (a3_space a) (a3_key a)) (a3_val a).
+Proof.
+  unfold write_attr, x_attr_string, escape, full_tag, qname.
+  change ws_attr_single_quote with false. change ws_canonical_attr_val with true. cbn iota.
+  rewrite (flat_map_ext' (esc_byte 2) x_esc_attr) by apply esc_attr_eq.
+  cbn [app]. reflexivity.
+Qed.
+Lemma write_decl_attr p v : write_attr (decl_attr (p, v)) = x_ns_string p v.
+Proof. rewrite write_attr_spec. destruct p as [|z r]; reflexivity. Qed.
+Lemma write_elem s t attrs ch :
+  write_node (Elem s t attrs ch) =
+  60 :: qname s t ++ flat_map write_attr attrs ++ 62 :: flat_map write_node ch ++ [60; 47] ++ qname s t ++ [62].
+Proof.
+  cbn [write_node]. change ws_canonical_end_tags with true. cbn iota. unfold full_tag, qname.
+  destruct ch; reflexivity.
+Qed.
+
+(* ================================================================== list helpers *)
+Lemma filter_all {A} (f : A -> bool) l : (forall x, In x l -> f x = true) -> filter f l = l.
+Proof.
+  induction l as [|x l IH]; intros H; [reflexivity|]. cbn. rewrite (H x (or_introl eq_refl)). f_equal. apply IH. intros; apply H; now right.
+Qed.
+Lemma filter_none {A} (f : A -> bool) l : (forall x, In x l -> f x = false) -> filter f l = [].
+Proof.
+  induction l as [|x l IH]; intros H; [reflexivity|]. cbn. rewrite (H x (or_introl eq_refl)). apply IH. intros; apply H; now right.
+Qed.
+Lemma filter_andb {A} (f g : A -> bool) l : filter (fun x => f x && g x) l = filter g (filter f l).
+Proof.
+  induction l as [|x l IH]; [reflexivity|]. cbn. destruct (f x); cbn; [destruct (g x); now rewrite IH | exact IH].
+Qed.
+Lemma filter_map_comm {A B} (h : A -> B) (g : B -> bool) l : filter g (map h l) = map h (filter (fun x => g (h x)) l).
+Proof. induction l as [|x l IH]; [reflexivity|]. cbn. destruct (g (h x)); cbn; now rewrite IH. Qed.
+Lemma pairs_from_fst (g : bytes -> bytes) (l : list (bytes * bytes)) :
+  (forall d, In d l -> snd d = g (fst d)) -> l = map (fun p => (p, g p)) (map fst l).
+Proof.
+  induction l as [|[p v] l IH]; intros H; [reflexivity|]. cbn [map fst]. f_equal.
+  - specialize (H (p, v) (or_introl eq_refl)). cbn in H. now subst.
+  - apply IH. intros; apply H; now right.
+Qed.
+
+(* ================================================================== one element of the top-down form *)
+Definition kids (D' : list (bytes * bytes)) (ch : list node) : list node :=
+  (fix go (l : list node) : list node :=
+     match l with
+     | [] => []
+     | c :: r => if child_kept (kind_of c) then (if child_walked (kind_of c) then walkD D' c else c) :: go r else go r
+     end) ch.
+Lemma walkD_unfold D s t attrs ch :
+  walkD D (Elem s t attrs ch) =
+  let '(attrs1, pass) := place_all s attrs D in
+  let '(attrs2, down) := own_loop s [] attrs1 [] in
+  Elem s t (isort attr_lt attrs2) (kids (pass ++ down) ch).
+Proof. reflexivity. Qed.
+
+Definition emitted (s : bytes) (attrs : list attr) (D : list (bytes * bytes)) : list (bytes * bytes) :=
+  filter (fun d => usesP s attrs (fst d)) (own_decls attrs) ++ filter (placedP s attrs) D.
+Definition pending (s : bytes) (attrs : list attr) (D : list (bytes * bytes)) : list (bytes * bytes) :=
+  filter (passedP s attrs) D ++ filter (fun d => negb (usesP s attrs (fst d))) (own_decls attrs).
+
+Lemma decl_prefix_ok attrs a : names_ok attrs = true -> In a attrs -> is_nsdecl a = true ->
+  decl_prefix a <> s_xmlns /\ decl_prefix a <> s_xml.
+Proof.
+  intros N Ha D. apply (own_prefix_ok attrs (decl_prefix a, a3_val a) N).
+  unfold own_decls. apply in_map_iff. exists a. split; [reflexivity|]. apply filter_In. now split.
+Qed.
+
+Lemma walkD_elem s t attrs ch D :
+  names_ok attrs = true -> NoDup (map fst D) -> (forall d, In d D -> fst d <> s_xmlns /\ fst d <> s_xml) ->
+  walkD D (Elem s t attrs ch) =
+  Elem s t (isort attr_lt (filter (keepP s attrs) attrs ++ map decl_attr (filter (placedP s attrs) D)))
+       (kids (pending s attrs D) ch).
+Proof.
+  intros N ND HD. rewrite walkD_unfold, (place_all_spec s attrs D N ND HD).
+  set (X := map decl_attr (filter (placedP s attrs) D)).
+  assert (PL : plain_attrs (attrs ++ X) = plain_attrs attrs).
+  { unfold X. now rewrite plain_app, plain_decl_attrs, app_nil_r. }
+  rewrite own_loop_spec.
+  2:{ intros a Ha Da. apply in_app_iff in Ha as [Ha|Ha].
+      - now apply (decl_prefix_ok attrs a N Ha Da).
+      - unfold X in Ha. apply in_map_iff in Ha as (d & <- & Hd). rewrite decl_attr_prefix.
+        apply filter_In in Hd as [Hd _]. now apply HD. }
+  assert (KP : forall a, keepP s (attrs ++ X) a = keepP s attrs a).
+  { intros a. unfold keepP, dropP. now rewrite (usesP_plain s _ _ _ PL). }
+  assert (DP : forall a, dropP s (attrs ++ X) a = dropP s attrs a).
+  { intros a. unfold dropP. now rewrite (usesP_plain s _ _ _ PL). }
+  rewrite (filter_ext _ _ KP), (filter_ext _ _ DP), !filter_app.
+  assert (HX : forall x, In x X -> dropP s attrs x = false).
+  { intros x Hx. unfold X in Hx. apply in_map_iff in Hx as (d & <- & Hd). apply filter_In in Hd as [_ Hd].
+    unfold placedP in Hd. apply andb_true_iff in Hd as [_ Hu]. unfold dropP. now rewrite decl_attr_is_decl, decl_attr_prefix, Hu. }
+  rewrite (filter_all (keepP s attrs) X) by (intros x Hx; unfold keepP; now rewrite (HX x Hx)).
+  rewrite (filter_none (dropP s attrs) X) by exact HX.
+  rewrite app_nil_r. f_equal. f_equal. unfold pending. f_equal.
+  unfold own_decls, dropP. rewrite filter_andb, filter_map_comm. reflexivity.
+Qed.
+
+(* the sorted attribute list: declarations first, then the real attributes *)
+Lemma sorted_attrs s attrs D :
+  names_ok attrs = true ->
+  isort attr_lt (filter (keepP s attrs) attrs ++ map decl_attr (filter (placedP s attrs) D)) =
+  isort attr_lt (map decl_attr (emitted s attrs D)) ++ isort attr_lt (plain_attrs attrs).
+Proof.
+  intros N. set (X := map decl_attr (filter (placedP s attrs) D)).
+  rewrite (isort_partition attr_lt is_nsdecl).
+  2:{ intros x y _ _ Hx Hy. now apply attr_lt_decl_plain. }
+  f_equal; f_equal.
+  - rewrite filter_app. unfold emitted. rewrite map_app. f_equal.
+    + rewrite <- filter_andb.
+      rewrite (filter_ext _ (fun a => is_nsdecl a && usesP s attrs (decl_prefix a))).
+      2:{ intros a. unfold keepP, dropP. destruct (is_nsdecl a), (usesP s attrs (decl_prefix a)); reflexivity. }
+      rewrite filter_andb, (decls_are_decl_attrs _ N), filter_map_comm.
+      f_equal. apply filter_ext. intros d. now rewrite decl_attr_prefix.
+    + apply filter_all. intros x Hx. unfold X in Hx. apply in_map_iff in Hx as (d & <- & _). apply decl_attr_is_decl.
+  - rewrite filter_app. rewrite (filter_none _ X).
+    2:{ intros x Hx. unfold X in Hx. apply in_map_iff in Hx as (d & <- & _). now rewrite decl_attr_is_decl. }
+    rewrite app_nil_r, <- filter_andb. unfold plain_attrs. apply filter_ext. intros a.
+    unfold keepP, dropP. destruct (is_nsdecl a); cbn; rewrite ?andb_false_r; reflexivity.
+Qed.
+
+(* ================================================================== the simulation invariant *)
+(* D: declarations relic still carries downwards; inscope / rendered: the two environments of exc-c14n.
+   A carried declaration is the binding in scope and has not been rendered with that value; every other prefix is
+   either rendered with its in-scope value or not bound at all. *)
+Definition Inv (D : list (bytes * bytes)) (inscope rendered : env) : Prop :=
+  NoDup (map fst D) /\
+  (forall p v, In (p, v) D -> env_get inscope p = v /\ env_get rendered p <> v /\ p <> s_xmlns /\ p <> s_xml) /\
+  (forall p, ~ In p (map fst D) -> env_get inscope p = env_get rendered p).
+
+Lemma has_decl_in p attrs : has_decl p attrs = true <-> In p (map fst (own_decls attrs)).
+Proof.
+  rewrite has_decl_own. split.
+  - intros H. apply existsb_exists in H as (d & Hd & E). apply beq_iff in E. subst. now apply in_map.
+  - intros H. apply in_map_iff in H as (d & <- & Hd). apply existsb_exists. exists d. split; [assumption | apply beq_refl].
+Qed.
+Lemma in_fst_exists {A B} (l : list (A * B)) p : In p (map fst l) -> exists v, In (p, v) l.
+Proof. intros H. apply in_map_iff in H as ([q v] & <- & H). now exists v. Qed.
+
+Section Element.
+  Variables (s : bytes) (attrs : list attr) (D : list (bytes * bytes)) (inscope rendered : env).
+  Hypothesis N : names_ok attrs = true.
+  Hypothesis NDa : NoDup (attr_names attrs).
+  Hypothesis NR : not_redundant rendered attrs = true.
+  Hypothesis I : Inv D inscope rendered.
+  Let inscope' := env_add inscope (own_decls attrs).
+  Let g := env_get inscope'.
+  Let U' := filter (fun p => negb (bytes_eqb (g p) (env_get rendered p))) (utilized s attrs).
+  Let out_ns := isort prefix_lt U'.
+  Let rendered' := render g out_ns rendered.
+
+  Lemma g_own p v : In (p, v) (own_decls attrs) -> g p = v.
+  Proof. intros H. unfold g, inscope'. apply env_add_in; [now apply own_decls_nodup | assumption]. Qed.
+  Lemma g_inherit p : has_decl p attrs = false -> g p = env_get inscope p.
+  Proof.
+    intros H. unfold g, inscope'. apply env_add_notin. intros G. apply has_decl_in in G. congruence.
+  Qed.
+  Lemma own_not_rendered p v : In (p, v) (own_decls attrs) -> env_get rendered p <> v.
+  Proof.
+    intros H. unfold not_redundant in NR. rewrite forallb_forall in NR. specialize (NR _ H). cbn [fst snd] in NR.
+    apply negb_true_iff, beq_false in NR. congruence.
+  Qed.
+
+  Lemma emitted_value d : In d (emitted s attrs D) -> snd d = g (fst d).
+  Proof.
+    destruct I as (_ & I2 & _). destruct d as [p v]. cbn [fst snd]. unfold emitted. rewrite in_app_iff, !filter_In.
+    intros [[H _]|[H P]].
+    - symmetry. now apply g_own.
+    - unfold placedP in P. apply andb_true_iff in P as [P _]. apply negb_true_iff in P. cbn [fst] in P.
+      rewrite (g_inherit p P). symmetry. now apply I2.
+  Qed.
+  Lemma emitted_members p : In p (map fst (emitted s attrs D)) <-> In p U'.
+  Proof.
+    destruct I as (I1 & I2 & I3). unfold U'. rewrite filter_In, utilized_in, negb_true_iff, beq_false. split.
+    - intros H. apply in_fst_exists in H as (v & H). unfold emitted in H. rewrite in_app_iff, !filter_In in H. cbn [fst] in H.
+      destruct H as [[H U]|[H P]].
+      + repeat split; [assumption | now apply (own_prefix_ok attrs (p, v)) |]. rewrite (g_own p v H).
+        intros E. now apply (own_not_rendered p v H).
+      + unfold placedP in P. apply andb_true_iff in P as [P U]. apply negb_true_iff in P. cbn [fst] in P, U.
+        destruct (I2 p v H) as (E1 & E2 & _ & E4). repeat split; try assumption. rewrite (g_inherit p P), E1. congruence.
+    - intros [[U X] G]. destruct (has_decl p attrs) eqn:Hd.
+      + apply has_decl_in, in_fst_exists in Hd as (v & Hv). apply in_map_iff. exists (p, v). split; [reflexivity|].
+        unfold emitted. apply in_app_iff. left. apply filter_In. now split.
+      + rewrite (g_inherit p Hd) in G. destruct (in_dec bytes_dec p (map fst D)) as [Hin|Hn].
+        * apply in_fst_exists in Hin as (v & Hv). apply in_map_iff. exists (p, v). split; [reflexivity|].
+          unfold emitted. apply in_app_iff. right. apply filter_In. split; [assumption|]. unfold placedP. cbn [fst]. now rewrite Hd, U.
+        * exfalso. apply G. now apply I3.
+  Qed.
+  Lemma emitted_nodup : NoDup (map fst (emitted s attrs D)).
+  Proof.
+    destruct I as (I1 & _ & _). unfold emitted. rewrite map_app. apply nodup_app.
+    - apply nodup_map_filter. now apply own_decls_nodup.
+    - now apply nodup_map_filter.
+    - intros p H1 H2. apply in_map_iff in H1 as (d1 & <- & H1). apply filter_In in H1 as [H1 _].
+      apply in_map_iff in H2 as (d2 & E & H2). apply filter_In in H2 as [_ H2]. unfold placedP in H2.
+      apply andb_true_iff in H2 as [H2 _]. apply negb_true_iff in H2. rewrite E in H2.
+      assert (has_decl (fst d1) attrs = true) by (apply has_decl_in; now apply in_map). congruence.
+  Qed.
+  Lemma emitted_prefix_ok p : In p (map fst (emitted s attrs D)) -> p <> s_xmlns.
+  Proof.
+    destruct I as (_ & I2 & _). intros H. apply in_fst_exists in H as (v & H). unfold emitted in H.
+    rewrite in_app_iff, !filter_In in H. destruct H as [[H _]|[H _]].
+    - now apply (own_prefix_ok attrs (p, v)).
+    - now apply (I2 p v).
+  Qed.
+
+  Lemma sorted_decls :
+    isort attr_lt (map decl_attr (emitted s attrs D)) = map decl_attr (map (fun p => (p, g p)) out_ns).
+  Proof.
+    rewrite (pairs_from_fst g (emitted s attrs D)) at 1 by (intros d Hd; now apply emitted_value).
+    set (PL := map fst (emitted s attrs D)). set (f := fun p => decl_attr (p, g p)).
+    assert (MM : forall l, map decl_attr (map (fun p => (p, g p)) l) = map f l) by (intros l; now rewrite map_map).
+    rewrite !MM.
+    rewrite (isort_map attr_lt (fun p q => attr_lt (f p) (f q)) f) by reflexivity.
+    f_equal. unfold out_ns.
+    rewrite (isort_ext_nodup _ prefix_lt PL emitted_nodup).
+    2:{ intros p q Hp Hq Hpq. unfold prefix_lt. apply attr_lt_decls; [assumption | now apply emitted_prefix_ok | now apply emitted_prefix_ok]. }
+    apply (isort_unique prefix_lt (fun _ => True)).
+    - intros a _. apply str_ltb_irrefl.
+    - intros a b c _ _ _. apply str_ltb_trans.
+    - intros a b _ _. apply str_ltb_total.
+    - apply Forall_forall. auto.
+    - apply Forall_forall. auto.
+    - exact emitted_nodup.
+    - unfold U'. apply NoDup_filter, utilized_nodup.
+    - exact emitted_members.
+  Qed.
+
+  Lemma out_ns_in p : In p out_ns <-> In p U'.
+  Proof. unfold out_ns. apply isort_in. Qed.
+
+  Lemma child_inv : Inv (pending s attrs D) inscope' rendered'.
+  Proof.
+    destruct I as (I1 & I2 & I3).
+    assert (NU : forall p, usesP s attrs p = false -> ~ In p out_ns).
+    { intros p U H. apply out_ns_in in H. unfold U' in H. apply filter_In in H as [H _]. apply utilized_in in H as [H _]. congruence. }
+    repeat split.
+    - unfold pending. rewrite map_app. apply nodup_app.
+      + now apply nodup_map_filter.
+      + apply nodup_map_filter. now apply own_decls_nodup.
+      + intros p H1 H2. apply in_map_iff in H1 as (d1 & <- & H1). apply filter_In in H1 as [_ H1]. unfold passedP in H1.
+        apply andb_true_iff in H1 as [H1 _]. apply negb_true_iff in H1.
+        apply in_map_iff in H2 as (d2 & E & H2). apply filter_In in H2 as [H2 _].
+        assert (has_decl (fst d1) attrs = true) by (apply has_decl_in; rewrite <- E; now apply in_map). congruence.
+    - unfold pending in H. rewrite in_app_iff, !filter_In in H. cbn [fst] in H. destruct H as [[H P]|[H U]].
+      + unfold passedP in P. cbn [fst] in P. apply andb_true_iff in P as [P _]. apply negb_true_iff in P.
+        fold (g p). rewrite (g_inherit p P). now apply I2.
+      + fold (g p). now apply g_own.
+    - unfold pending in H. rewrite in_app_iff, !filter_In in H. cbn [fst] in H. unfold rendered'. destruct H as [[H P]|[H U]].
+      + unfold passedP in P. cbn [fst] in P. apply andb_true_iff in P as [_ P]. apply negb_true_iff in P.
+        rewrite render_notin by now apply NU. now apply I2.
+      + apply negb_true_iff in U. rewrite render_notin by now apply NU. now apply own_not_rendered.
+    - unfold pending in H. rewrite in_app_iff, !filter_In in H. destruct H as [[H _]|[H _]].
+      + now apply (I2 p v).
+      + now apply (own_prefix_ok attrs (p, v)).
+    - unfold pending in H. rewrite in_app_iff, !filter_In in H. destruct H as [[H _]|[H _]].
+      + now apply (I2 p v).
+      + now apply (own_prefix_ok attrs (p, v)).
+    - intros p Hp. fold (g p). unfold rendered'.
+      destruct (in_dec bytes_dec p out_ns) as [Ho|Ho]; [now rewrite render_in|].
+      rewrite render_notin by assumption.
+      assert (HU : usesP s attrs p = true -> p <> s_xml -> g p = env_get rendered p).
+      { intros U X. destruct (beqP (g p) (env_get rendered p)) as [E|E]; [assumption|]. exfalso. apply Ho, out_ns_in.
+        unfold U'. apply filter_In. split; [now apply utilized_in|]. now apply negb_true_iff, beq_false. }
+      assert (HP : forall v, In (p, v) (pending s attrs D) -> False).
+      { intros v Hv. apply Hp. apply in_map_iff. now exists (p, v). }
+      destruct (has_decl p attrs) eqn:Hd.
+      + pose proof Hd as Hd'. apply has_decl_in, in_fst_exists in Hd' as (v & Hv).
+        destruct (usesP s attrs p) eqn:U.
+        * apply HU; [reflexivity|]. now apply (own_prefix_ok attrs (p, v)).
+        * exfalso. apply (HP v). unfold pending. apply in_app_iff. right. apply filter_In. cbn [fst]. now rewrite U.
+      + destruct (in_dec bytes_dec p (map fst D)) as [Hin|Hn].
+        * apply in_fst_exists in Hin as (v & Hv). destruct (usesP s attrs p) eqn:U.
+          -- apply HU; [reflexivity|]. now apply (I2 p v).
+          -- exfalso. apply (HP v). unfold pending. apply in_app_iff. left. apply filter_In. split; [assumption|].
+             unfold passedP. cbn [fst]. now rewrite Hd, U.
+        * rewrite (g_inherit p Hd). now apply I3.
+  Qed.
+End Element.
+
+(* ================================================================== reading the class K *)
+Lemma code_nil b c : code b c = [] -> b = true.
+Proof. destruct b; [reflexivity | discriminate]. Qed.
+Lemma flat_map_nil {A B} (f : A -> list B) l : flat_map f l = [] -> Forall (fun x => f x = []) l.
+Proof.
+  induction l as [|x l IH]; intros H; [constructor|]. cbn in H. apply app_eq_nil in H as [H1 H2]. constructor; auto.
+Qed.
+Lemma flat_map_map {A B C} (f : B -> list C) (h : A -> B) l : flat_map f (map h l) = flat_map (fun x => f (h x)) l.
+Proof. induction l as [|x l IH]; [reflexivity|]. cbn. now rewrite IH. Qed.
+
+Definition child_env (inscope rendered : env) (s : bytes) (attrs : list attr) : env * env :=
+  let inscope' := env_add inscope (own_decls attrs) in
+  (inscope',
+   render (env_get inscope')
+     (isort prefix_lt (filter (fun p => negb (bytes_eqb (env_get inscope' p) (env_get rendered p))) (utilized s attrs)))
+     rendered).
+
+Lemma k_elem inscope rendered s t attrs ch :
+  k_codes inscope rendered (Elem s t attrs ch) = [] ->
+  nodup_b (attr_names attrs) = true /\ names_ok attrs = true /\ not_redundant rendered attrs = true /\
+  order_ok (fst (child_env inscope rendered s attrs)) attrs = true /\
+  Forall (fun c => k_codes (fst (child_env inscope rendered s attrs)) (snd (child_env inscope rendered s attrs)) c = []) ch.
+Proof.
+  cbn [k_codes]. intros H.
+  apply app_eq_nil in H as [H1 H]. apply app_eq_nil in H as [H2 H]. apply app_eq_nil in H as [H3 H].
+  apply app_eq_nil in H as [H4 H]. apply code_nil in H1, H2, H3, H4. repeat split; try assumption.
+  now apply flat_map_nil in H.
+Qed.
+
+(* ================================================================== main simulation *)
+Lemma kids_spec D' inscope' rendered' ch :
+  Forall (fun c => forall inscope rendered D, kind_of c = 0 -> k_codes inscope rendered c = [] -> Inv D inscope rendered ->
+                   write_node (walkD D c) = exc_node inscope rendered c) ch ->
+  Forall (fun c => k_codes inscope' rendered' c = []) ch ->
+  Inv D' inscope' rendered' ->
+  flat_map write_node (kids D' ch) = flat_map (exc_node inscope' rendered') ch.
+Proof.
+  intros IH HK I. induction ch as [|c r IHr]; [reflexivity|].
+  inversion IH as [|? ? IHc IHr']; subst. inversion HK as [|? ? Kc Kr]; subst.
+  specialize (IHr IHr' Kr). unfold kids in *. destruct c as [s t a ch'|d|d|t i|d].
+  - change (child_kept (kind_of (Elem s t a ch'))) with true. change (child_walked (kind_of (Elem s t a ch'))) with true.
+    cbn iota. cbn [flat_map]. rewrite IHr. f_equal. now apply IHc.
+  - change (child_kept (kind_of (CharData d))) with true. change (child_walked (kind_of (CharData d))) with false.
+    cbn iota. cbn [flat_map]. rewrite IHr. f_equal. cbn [write_node exc_node]. change ws_canonical_text with true. cbn iota.
+    unfold escape. apply flat_map_ext'. apply esc_text_eq.
+  - change (child_kept (kind_of (Comment d))) with false. cbn iota. cbn [flat_map exc_node app]. exact IHr.
+  - discriminate Kc.
+  - discriminate Kc.
+Qed.
+
+Theorem walkD_is_spec n : forall inscope rendered D,
+  kind_of n = 0 -> k_codes inscope rendered n = [] -> Inv D inscope rendered ->
+  write_node (walkD D n) = exc_node inscope rendered n.
+Proof.
+  induction n as [s t attrs ch IH| | | |] using node_ind'; intros inscope rendered D Hk HK I; try discriminate Hk.
+  apply k_elem in HK as (K6 & K5 & K3 & K4 & Kch).
+  pose proof (nodup_b_NoDup _ K6) as NDa.
+  pose proof I as (I1 & I2 & I3).
+  rewrite walkD_elem; [|assumption|assumption|intros [p v] Hd; cbn [fst]; destruct (I2 p v Hd) as (_ & _ & ? & ?); now split].
+  rewrite write_elem, (sorted_attrs s attrs D K5), (sorted_decls s attrs D inscope rendered K5 NDa K3 I).
+  cbn [exc_node]. f_equal. f_equal. rewrite flat_map_app, <- !app_assoc. f_equal; [|f_equal].
+  - rewrite flat_map_map, flat_map_map. apply flat_map_ext'. intros p. apply write_decl_attr.
+  - rewrite (isort_ext attr_lt (xattr_lt (env_add inscope (own_decls attrs))) (plain_attrs attrs)).
+    + apply flat_map_ext'. intros a. apply write_attr_spec.
+    + intros x y Hx Hy.
+      rewrite attr_lt_plain by (unfold plain_attrs in Hx, Hy; apply filter_In in Hx as [_ Hx]; apply filter_In in Hy as [_ Hy];
+                                now apply negb_true_iff).
+      unfold order_ok in K4. cbn [child_env fst] in K4. rewrite forallb_forall in K4.
+      specialize (K4 x Hx). rewrite forallb_forall in K4. specialize (K4 y Hy). now apply eqb_prop in K4.
+  - cbn [app]. f_equal. f_equal.
+    apply (kids_spec _ (fst (child_env inscope rendered s attrs)) (snd (child_env inscope rendered s attrs))).
+    + exact IH.
+    + exact Kch.
+    + apply (child_inv s attrs D inscope rendered K5 NDa K3 I).
+Qed.
+
+(* ================================================================== the apex: pullDown's map versus the namespaces in scope *)
+Lemma sp_get_env m p : sp_get m p = env_get m p.
+Proof. induction m as [|[q v] m IH]; [reflexivity|]. cbn. now rewrite IH. Qed.
+Lemma sp_set_get m q w p : env_get (sp_set m q w) p = if bytes_eqb p q then w else env_get m p.
+Proof.
+  induction m as [|[k v] m IH]; cbn.
+  - reflexivity.
+  - destruct (beqP q k) as [->|Hqk]; cbn.
+    + destruct (bytes_eqb p k); reflexivity.
+    + rewrite IH. destruct (beqP p k) as [->|Hpk]; [|reflexivity].
+      rewrite (proj2 (beq_false k q)) by congruence. reflexivity.
+Qed.
+Lemma sp_set_keys m q w : env_get m q = [] -> ~ In q (map fst m) -> map fst (sp_set m q w) = map fst m ++ [q].
+Proof.
+  induction m as [|[k v] m IH]; intros E N; [reflexivity|]. cbn in *.
+  destruct (beqP q k) as [->|Hqk]; [exfalso; apply N; now left|]. cbn. f_equal. apply IH; [assumption|]. intros G. apply N. now right.
+Qed.
+Lemma sp_set_in m q w d : In d (sp_set m q w) -> In d m \/ d = (q, w).
+Proof.
+  induction m as [|[k v] m IH]; cbn.
+  - intros [<-|[]]. now right.
+  - destruct (bytes_eqb q k); cbn.
+    + intros [<-|H]; [now right | left; now right].
+    + intros [<-|H]; [left; now left|]. destruct (IH H) as [G|G]; [left; now right | now right].
+Qed.
+Lemma env_get_notin m p : ~ In p (map fst m) -> env_get m p = [].
+Proof.
+  induction m as [|[k v] m IH]; intros N; [reflexivity|]. cbn in *.
+  destruct (beqP p k) as [->|]; [exfalso; apply N; now left|]. apply IH. intros G. apply N. now right.
+Qed.
+Lemma env_get_in m p v : NoDup (map fst m) -> In (p, v) m -> env_get m p = v.
+Proof.
+  induction m as [|[k w] m IH]; intros ND H; [contradiction|]. cbn in *. inversion ND as [|? ? Nin ND']; subst.
+  destruct H as [E|H].
+  - inversion E; subst. now rewrite beq_refl.
+  - destruct (beqP p k) as [->|]; [|now apply IH]. exfalso. apply Nin. apply in_map_iff. now exists (k, v).
+Qed.
+
+(* the state of the map: keys distinct, values non-empty, prefixes neither xml nor xmlns *)
+Definition map_ok (m : list (bytes * bytes)) : Prop :=
+  NoDup (map fst m) /\ (forall p v, In (p, v) m -> v <> [] /\ p <> s_xmlns /\ p <> s_xml).
+Definition anc_ok (attrs : list attr) : Prop :=
+  names_ok attrs = true /\ (forall d, In d (own_decls attrs) -> snd d <> []).
+
+Lemma collect_one attrs : forall m, map_ok m -> anc_ok attrs ->
+  map_ok (fold_left collect_attr attrs m) /\
+  (forall p, env_get (fold_left collect_attr attrs m) p =
+             if bytes_eqb (env_get m p) [] then env_get (own_decls attrs) p else env_get m p).
+Proof.
+  induction attrs as [|a l IH]; intros m M [N V].
+  - split; [assumption|]. intros p. cbn. destruct (bytes_eqb (env_get m p) []) eqn:E; [now apply beq_iff in E | reflexivity].
+  - cbn [fold_left]. unfold names_ok in N. cbn [forallb] in N. apply andb_true_iff in N as [Na Nl].
+    assert (Al : anc_ok l).
+    { split; [exact Nl|]. intros d Hd. apply V. unfold own_decls in *. cbn [filter]. destruct (is_nsdecl a); [now right | assumption]. }
+    assert (CE : collect_attr m a = if is_nsdecl a then (if bytes_eqb (env_get m (decl_prefix a)) [] then sp_set m (decl_prefix a) (a3_val a) else m) else m).
+    { unfold collect_attr. rewrite get_decl_spec. unfold pull_skip_nondecl, pull_skip_seen. rewrite sp_get_env.
+      destruct (is_nsdecl a); cbn [negb]; [|reflexivity]. destruct (bytes_eqb (env_get m (decl_prefix a)) []); reflexivity. }
+    rewrite CE. clear CE.
+    destruct (is_nsdecl a) eqn:Da; cbn [negb].
+    + assert (Hd : In (decl_prefix a, a3_val a) (own_decls (a :: l))) by (unfold own_decls; cbn [filter]; rewrite Da; now left).
+      assert (OD : own_decls (a :: l) = (decl_prefix a, a3_val a) :: own_decls l) by (unfold own_decls; cbn [filter]; now rewrite Da).
+      destruct (bytes_eqb (env_get m (decl_prefix a)) []) eqn:Eq; cbn [negb].
+      * (* not seen yet: recorded *)
+        apply beq_iff in Eq.
+        assert (M' : map_ok (sp_set m (decl_prefix a) (a3_val a))).
+        { destruct M as [M1 M2]. split.
+          - assert (Nk : ~ In (decl_prefix a) (map fst m)).
+            { intros G. apply in_fst_exists in G as (v & Hv). rewrite (env_get_in m _ v M1 Hv) in Eq. destruct (M2 _ _ Hv) as [Q _]. now apply Q. }
+            rewrite sp_set_keys by assumption. apply nodup_app; [assumption | repeat constructor; intros [] |].
+            intros x Hx [<-|[]]. contradiction.
+          - intros p v H. apply sp_set_in in H as [H|H]; [now apply M2|]. inversion H; subst.
+            split; [exact (V _ Hd)|]. apply (own_prefix_ok (a :: l) (decl_prefix a, a3_val a)); [|assumption].
+            unfold names_ok. cbn [forallb]. now rewrite Na, Nl. }
+        destruct (IH _ M' Al) as [R1 R2]. split; [assumption|]. intros p. rewrite R2, sp_set_get, OD. cbn [env_get].
+        destruct (beqP p (decl_prefix a)) as [->|Hp].
+        -- rewrite Eq. cbn. destruct (bytes_eqb (a3_val a) []) eqn:Ev; [|reflexivity]. apply beq_iff in Ev. exfalso. now apply (V _ Hd).
+        -- reflexivity.
+      * (* already seen in a nearer ancestor *)
+        destruct (IH _ M Al) as [R1 R2]. split; [assumption|]. intros p. rewrite R2, OD. cbn [env_get].
+        destruct (beqP p (decl_prefix a)) as [->|Hp]; [now rewrite Eq | reflexivity].
+    + destruct (IH _ M Al) as [R1 R2]. split; [assumption|]. intros p. rewrite R2.
+      replace (own_decls (a :: l)) with (own_decls l) by (unfold own_decls; cbn [filter]; now rewrite Da). reflexivity.
+Qed.
+
+Lemma ctx_env_cons a ctx : ctx_env (a :: ctx) = env_add (ctx_env ctx) (own_decls a).
+Proof. unfold ctx_env. cbn [rev]. now rewrite fold_left_app. Qed.
+Lemma env_add_get e decls p : NoDup (map fst decls) -> (forall d, In d decls -> snd d <> []) ->
+  env_get (env_add e decls) p = if bytes_eqb (env_get decls p) [] then env_get e p else env_get decls p.
+Proof.
+  intros ND V. destruct (in_dec bytes_dec p (map fst decls)) as [Hin|Hn].
+  - apply in_fst_exists in Hin as (v & Hv). rewrite (env_add_in decls e p v ND Hv), (env_get_in decls p v ND Hv).
+    destruct (bytes_eqb v []) eqn:E; [|reflexivity]. apply beq_iff in E. exfalso. now apply (V _ Hv).
+  - rewrite (env_add_notin decls e p Hn), (env_get_notin decls p Hn). reflexivity.
+Qed.
+
+Definition collect_from (m : list (bytes * bytes)) (ctx : list (list attr)) : list (bytes * bytes) :=
+  fold_left (fun m attrs => fold_left collect_attr attrs m) ctx m.
+Lemma collect_all ctx : forall m, map_ok m -> Forall (fun a => anc_ok a /\ NoDup (attr_names a)) ctx ->
+  map_ok (collect_from m ctx) /\
+  (forall p, env_get (collect_from m ctx) p = if bytes_eqb (env_get m p) [] then env_get (ctx_env ctx) p else env_get m p).
+Proof.
+  induction ctx as [|a ctx IH]; intros m M F.
+  - split; [assumption|]. intros p. cbn. destruct (bytes_eqb (env_get m p) []) eqn:E; [now apply beq_iff in E | reflexivity].
+  - inversion F as [|? ? [Aa Na] F']; subst. unfold collect_from. cbn [fold_left].
+    destruct (collect_one a m M Aa) as [M1 G1]. destruct (IH _ M1 F') as [M2 G2]. split; [exact M2|].
+    intros p. unfold collect_from in G2. rewrite G2, G1, ctx_env_cons.
+    rewrite env_add_get; [| apply own_decls_nodup; [apply Aa | assumption] | apply Aa].
+    destruct (bytes_eqb (env_get m p) []) eqn:E1; [|now rewrite E1].
+    destruct (bytes_eqb (env_get (own_decls a) p) []); reflexivity.
+Qed.
+
+Lemma ctx_ok ctx : ctx_codes ctx = [] -> Forall (fun a => anc_ok a /\ NoDup (attr_names a)) ctx.
+Proof.
+  unfold ctx_codes. intros H. apply flat_map_nil in H. rewrite Forall_forall in *. intros a Ha. specialize (H a Ha).
+  apply app_eq_nil in H as [H1 H]. apply app_eq_nil in H as [H2 H3]. apply code_nil in H1, H2, H3.
+  split; [split; [assumption|] | now apply nodup_b_NoDup].
+  intros d Hd. rewrite forallb_forall in H3. specialize (H3 d Hd). destruct d as [p v]. cbn [snd] in *. destruct v; [discriminate H3 | discriminate].
+Qed.
+
+Lemma root_inv ctx : ctx_codes ctx = [] -> Inv (collect_spaces ctx) (ctx_env ctx) [].
+Proof.
+  intros H. assert (M0 : map_ok []) by (split; [constructor | intros p v []]).
+  destruct (collect_all ctx [] M0 (ctx_ok ctx H)) as [[M1 M2] G]. fold (collect_spaces ctx) in M1, M2, G.
+  assert (G' : forall p, env_get (collect_spaces ctx) p = env_get (ctx_env ctx) p) by (intros p; rewrite G; reflexivity).
+  clear G. rename G' into G.
+  repeat split.
+  - exact M1.
+  - rewrite <- G. now apply env_get_in.
+  - cbn. intros E. symmetry in E. destruct (M2 _ _ H0) as (Q1 & _ & _). now apply Q1.
+  - destruct (M2 _ _ H0) as (_ & Q2 & _). exact Q2.
+  - destruct (M2 _ _ H0) as (_ & _ & Q3). exact Q3.
+  - intros p Hp. rewrite <- G. cbn. now apply env_get_notin.
+Qed.
+
+(* ================================================================== the theorem *)
+Theorem relic_eq_spec_on_K ctx n : inK ctx n = true -> relic_c14n ctx n = exc_c14n ctx n.
+Proof.
+  unfold inK, K_codes. destruct n as [s t a ch| | | |]; try discriminate.
+  destruct (ctx_codes ctx ++ k_codes (ctx_env ctx) [] (Elem s t a ch)) eqn:E; [|discriminate]. intros _.
+  apply app_eq_nil in E as [E1 E2].
+  rewrite relic_is_top_down. unfold relic_c14n_td, exc_c14n.
+  apply walkD_is_spec; [reflexivity | assumption | now apply root_inv].
+Qed.
+
+(* ================================================================== documents relic builds are in K *)
+Lemma signed_info_codes e r ref_id hash_alg sig_alg digest c14n :
+  k_codes e r (signed_info ref_id hash_alg sig_alg digest c14n) = [].
+Proof. destruct ref_id; reflexivity. Qed.
+
+Lemma K_codes_elem ctx s t a ch : K_codes ctx (Elem s t a ch) = ctx_codes ctx ++ k_codes (ctx_env ctx) [] (Elem s t a ch).
+Proof. reflexivity. Qed.
+
+(* Signature carries xmlns=NsXMLDsig and, after appmanifest.setSigIds, an Id *)
+Theorem signed_info_in_K ref_id hash_alg sig_alg digest c14n id_attr outer :
+  ctx_codes outer = [] ->
+  inK (sig_ctx (match id_attr with Some v => [mkattr [] s_Id v] | None => [] end) outer)
+      (signed_info ref_id hash_alg sig_alg digest c14n) = true.
+Proof.
+  intros H. unfold inK.
+  replace (K_codes _ (signed_info ref_id hash_alg sig_alg digest c14n))
+    with (ctx_codes (sig_ctx (match id_attr with Some v => [mkattr [] s_Id v] | None => [] end) outer)
+          ++ k_codes (ctx_env (sig_ctx (match id_attr with Some v => [mkattr [] s_Id v] | None => [] end) outer)) []
+               (signed_info ref_id hash_alg sig_alg digest c14n)) by reflexivity.
+  rewrite signed_info_codes, app_nil_r. unfold sig_ctx, ctx_codes in *. cbn [flat_map]. rewrite H, app_nil_r.
+  destruct id_attr; reflexivity.
+Qed.
+
+Lemma vsix_refs_codes e r hash_uri refs :
+  flat_map (k_codes e r) (map (fun x => vsix_reference (fst x) hash_uri (snd x)) refs) = [].
+Proof. induction refs as [|x refs IH]; [reflexivity|]. cbn [map flat_map]. rewrite IH. reflexivity. Qed.
+
+Theorem vsix_object_in_K refs hash_uri fmt time :
+  inK (sig_ctx [] []) (vsix_object refs hash_uri ns_digsig fmt time) = true.
+Proof.
+  unfold inK.
+  replace (K_codes (sig_ctx [] []) (vsix_object refs hash_uri ns_digsig fmt time))
+    with (ctx_codes (sig_ctx [] []) ++ k_codes (ctx_env (sig_ctx [] [])) [] (vsix_object refs hash_uri ns_digsig fmt time)) by reflexivity.
+  unfold vsix_object, el. cbn [k_codes flat_map]. rewrite vsix_refs_codes. reflexivity.
+Qed.
+
+(* ================================================================== re-serialisations that keep the canonical form *)
+Lemma exc_children e r s t a ch1 ch2 :
+  flat_map (exc_node (fst (child_env e r s a)) (snd (child_env e r s a))) ch1 =
+  flat_map (exc_node (fst (child_env e r s a)) (snd (child_env e r s a))) ch2 ->
+  exc_node e r (Elem s t a ch1) = exc_node e r (Elem s t a ch2).
+Proof.
+  intros H. cbn [exc_node]. unfold child_env, render in H. cbn [fst snd] in H. now rewrite H.
+Qed.
+(* comments may be inserted or removed anywhere *)
+Lemma spec_comment_invariant e r s t a l1 d l2 :
+  exc_node e r (Elem s t a (l1 ++ Comment d :: l2)) = exc_node e r (Elem s t a (l1 ++ l2)).
+Proof. apply exc_children. rewrite !flat_map_app. reflexivity. Qed.
+(* text may be split into several character-data nodes (CDATA sections, entity boundaries, comments in between) *)
+Lemma spec_text_split_invariant e r s t a l1 d1 d2 l2 :
+  exc_node e r (Elem s t a (l1 ++ CharData (d1 ++ d2) :: l2)) = exc_node e r (Elem s t a (l1 ++ CharData d1 :: CharData d2 :: l2)).
+Proof.
+  apply exc_children. rewrite !flat_map_app. cbn [flat_map exc_node]. rewrite flat_map_app, <- !app_assoc. reflexivity.
+Qed.
+(* a child may be replaced by any child with the same canonical form in that context *)
+Lemma spec_child_congruence e r s t a l1 c c' l2 :
+  exc_node (fst (child_env e r s a)) (snd (child_env e r s a)) c = exc_node (fst (child_env e r s a)) (snd (child_env e r s a)) c' ->
+  exc_node e r (Elem s t a (l1 ++ c :: l2)) = exc_node e r (Elem s t a (l1 ++ c' :: l2)).
+Proof. intros H. apply exc_children. rewrite !flat_map_app. cbn [flat_map]. now rewrite H. Qed.
+(* the faithful model ignores comments as well *)
+Lemma kids_app D' l1 l2 : kids D' (l1 ++ l2) = kids D' l1 ++ kids D' l2.
+Proof.
+  unfold kids. induction l1 as [|c l1 IH]; [reflexivity|]. cbn [app].
+  destruct (child_kept (kind_of c)); [cbn [app]; now rewrite IH | exact IH].
+Qed.
+Lemma relic_comment_invariant ctx s t a l1 d l2 :
+  relic_c14n ctx (Elem s t a (l1 ++ Comment d :: l2)) = relic_c14n ctx (Elem s t a (l1 ++ l2)).
+Proof.
+  rewrite !relic_is_top_down. unfold relic_c14n_td. rewrite !walkD_unfold.
+  destruct (place_all s a (collect_spaces ctx)) as [a1 pass]. destruct (own_loop s [] a1 []) as [a2 down].
+  rewrite !kids_app. reflexivity.
+Qed.
 
 (* ================================================================== ECDSA r||s *)
 Lemma bitlen_nonneg n : 0 <= bitlen n.
